@@ -73,6 +73,18 @@ def _run_pandas(case, T, obj):
             if not isinstance(out, pd.DataFrame) or list(out.columns) != [obj.name]:
                 return {"kind": "other", "exc_type": "bad-return", "msg": repr(type(out))}
             return {"kind": "ok", "value": out[obj.name]}
+        if route == "regex_column":
+            # one regex Column coercing two columns with the same cells: each is coerced, and reported, on its own
+            schema = pa.DataFrameSchema({"^" + str(obj.name): pa.Column(T, coerce=True, nullable=True, regex=True)})
+            twin = str(obj.name) + "2"
+            out = schema.validate(pd.DataFrame({obj.name: obj, twin: obj.copy()}))
+            if not isinstance(out, pd.DataFrame) or list(out.columns) != [obj.name, twin]:
+                return {"kind": "other", "exc_type": "bad-return", "msg": repr(type(out))}
+            if not out[obj.name].astype(object).map(repr).tolist() == out[twin].astype(object).map(repr).tolist() \
+                    or out[obj.name].dtype != out[twin].dtype:
+                return {"kind": "other", "exc_type": "regex-matched-twins-coerced-differently",
+                        "msg": f"{out[obj.name].dtype} vs {out[twin].dtype}"}
+            return {"kind": "ok", "value": out[obj.name]}
         if route == "series_schema":
             out = pa.SeriesSchema(T, coerce=True, nullable=True, name=obj.name).validate(obj)
             return {"kind": "ok", "value": out}
@@ -372,10 +384,13 @@ def strat_pandas():
             pools = [st.sampled_from(grey or nulls)]
         n = draw(st.sampled_from(SIZES))
         cells = draw(st.lists(st.one_of(*pools), min_size=n, max_size=n))
-        container = draw(st.sampled_from(["series", "series", "index", "column", "series_schema"]))
+        container = draw(st.sampled_from(["series", "series", "index", "column", "series_schema", "regex_column"]))
         if container == "index" and spec["name"] == "float16":  # pandas: "float16 indexes are not supported"
             container = "series"
-        phys = draw(st.sampled_from(["object", "object", "infer"]))
+        # (categorical input is only paired with categorical targets: for any other target pandas casts the *categories*,
+        # not the elements, so an unused category decides the outcome - a pandas convention the property does not cover)
+        phys = draw(st.sampled_from(["object", "object", "infer"] + (["category"] * 2 if container != "index"
+                                                                      and spec["k"] == "category" else [])))
         index = None
         if container != "index" and draw(st.integers(0, 2)) == 0:
             index = draw(st.lists(st.sampled_from([10, 20, -1, "p", "q", 0, 2.5]), min_size=len(cells), max_size=len(cells)))
